@@ -19,6 +19,7 @@ UNITS = {
     "u19_import": {"verus": "specs/u19_import.vt.rs"},
     "u20_chunkparse": {"verus": "specs/u20_chunkparse.vt.rs"},
     "u21_patchlog_tx": {"verus": "specs/u21_patchlog_tx.vt.rs"},
+    "u22_loadnext": {"verus": "specs/u22_loadnext.vt.rs"},
 }
 CHUNK = "rust/automerge/src/storage/chunk.rs"
 EXID = "rust/automerge/src/exid.rs"
@@ -187,9 +188,9 @@ PROPERTIES.update({
         "level": "proof",
         "verus": [("u02_parse", ["take_1", "take_n", "take_4", "take1", "take4", "rest", "take_rest", "leb128_u64", "leb128_u32", "new", "lift", "split", "truncate", "skip", "reset", "is_empty"]),
                   ("u13_load", ["load_changes", "reset", "is_empty"]),
-                  ("u14_loadopts", ["load_with_options_and_mark_validation"]), ("u20_chunkparse", ["parse", "data_bytes", "bytes"])],
+                  ("u14_loadopts", ["load_with_options_and_mark_validation"]), ("u20_chunkparse", ["parse", "data_bytes", "bytes"]), ("u22_loadnext", "*")],
         "kani": ["u03_header_parse_q", "u03_header_parse_t", "u03_header_parse_long"],
-        "not_under_contract": ["storage::load::load_next_change (assumed: accepts exactly the leading chunk or fails without side effect)", "chunk bodies (Document::parse, Change::parse_following_header, BundleStorage::parse_following_header: assumed stubs), Document::reconstruct, Change::new_from_unverified (assumed stubs)",
+        "not_under_contract": ["one exit of load_next_change (document chunk that fails to reconstruct: this Verus loses a `&mut` parameter at a `return` inside a match with a guarded arm)", "chunk bodies (Document::parse, Change::parse_following_header, BundleStorage::parse_following_header: assumed stubs), Document::reconstruct, Change::new_from_unverified (assumed stubs)",
                                "Automerge::apply_changes (assumed: appends the given changes)"],
         "assumptions": ["input slices are shorter than usize::MAX (Input::wf)"],
         "explanation": "Verus proves for inputs of ANY length that take_n/take_1/take_4 return Incomplete exactly when fewer bytes remain than asked (never Ok, never a panic) and that leb128_u64 "
@@ -201,9 +202,9 @@ PROPERTIES.update({
     },
     "C14": {
         "level": "proof",
-        "verus": [("u03_chunk", "*"), ("u14_loadopts", ["load_with_options_and_mark_validation"]), ("u20_chunkparse", ["parse", "data_bytes", "bytes"])],
+        "verus": [("u03_chunk", "*"), ("u14_loadopts", ["load_with_options_and_mark_validation"]), ("u20_chunkparse", ["parse", "data_bytes", "bytes"]), ("u22_loadnext", "*")],
         "kani": ["u03_checksum_valid", "u03_chunktype_codes", "u03_header_parse_q", "u03_header_parse_t", "u03_header_parse_long"],
-        "not_under_contract": ["the call of checksum_valid from storage::load::load_next_change (tail chunks)", "Document/Change/Bundle body parsers (assumed: the body keeps the header it is given -- a body parser that re-derives its header is NOT seen)", "SHA-256 collision resistance (cryptographic assumption)"],
+        "not_under_contract": ["Document/Change/Bundle body parsers (assumed: the body keeps the header it is given -- a body parser that re-derives its header is NOT seen)", "SHA-256 collision resistance (cryptographic assumption)"],
         "trusted": ["sha2::Sha256 uninterpreted"],
         "explanation": "Structural part only: load_with_options returns a document only if the first chunk's checksum_valid() held (V, real function); Chunk::parse (V, real function, U20) hands every body parser the header "
                        "read from the file, rejects data left over inside a chunk, keeps the file's checksum on a compressed change and leaves exactly the input behind header + data; Chunk::checksum_valid is true only if the body's checksum "
